@@ -427,6 +427,15 @@ func evalClosureFieldWrites(npkg *packages.Package) ([]evalFieldWrite, map[strin
 								if t := info.TypeOf(in); t != nil && mutatingContainerCall(t, se.Sel.Name) {
 									out = append(out, evalFieldWrite{tn, in.Sel.Name, t, x.Pos()})
 								}
+								// recv.f.m(…) where f is a struct of this package and m writes its receiver
+								// (a memo, a counter object embedded in the node)
+								if m, ok := info.Uses[se.Sel].(*types.Func); ok && m.Pkg() == npkg.Types {
+									if md := declOf(npkg, m); md != nil && methodWritesReceiver(info, md) {
+										if t := info.TypeOf(in); t != nil {
+											out = append(out, evalFieldWrite{tn, in.Sel.Name, t, x.Pos()})
+										}
+									}
+								}
 							}
 						}
 					}
@@ -612,4 +621,38 @@ func mutatingContainerCall(t types.Type, method string) bool {
 		}
 	}
 	return false
+}
+
+// methodWritesReceiver: a pointer-receiver method that assigns to a field of its receiver.
+func methodWritesReceiver(info *types.Info, md *ast.FuncDecl) bool {
+	if md.Recv == nil || len(md.Recv.List) != 1 || len(md.Recv.List[0].Names) != 1 || md.Body == nil {
+		return false
+	}
+	if _, isPtr := info.TypeOf(md.Recv.List[0].Type).(*types.Pointer); !isPtr {
+		return false
+	}
+	recv := info.Defs[md.Recv.List[0].Names[0]]
+	writes := false
+	ast.Inspect(md.Body, func(n ast.Node) bool {
+		var targets []ast.Expr
+		switch x := n.(type) {
+		case *ast.AssignStmt:
+			targets = x.Lhs
+		case *ast.IncDecStmt:
+			targets = []ast.Expr{x.X}
+		}
+		for _, l := range targets {
+			base := ast.Unparen(l)
+			if ix, ok := base.(*ast.IndexExpr); ok {
+				base = ast.Unparen(ix.X)
+			}
+			if se, ok := base.(*ast.SelectorExpr); ok {
+				if id, ok := ast.Unparen(se.X).(*ast.Ident); ok && info.Uses[id] == recv {
+					writes = true
+				}
+			}
+		}
+		return !writes
+	})
+	return writes
 }
